@@ -62,12 +62,17 @@ type composeWorld struct {
 }
 
 func newComposeWorld(ts ...xrh.Template) *composeWorld {
+	return newComposeWorldWith(nil, ts...)
+}
+
+func newComposeWorldWith(patchSets []v1.PatchSet, ts ...xrh.Template) *composeWorld {
 	xrh.BeginExecution(7)
 	xrh.MapOrder(0)
 	s := xrh.NewStore()
 	w := &composeWorld{s: s, xrd: xrh.XRD()}
 	s.Seed(w.xrd)
 	comp := xrh.ResourcesComposition("comp", ts...)
+	comp.Spec.PatchSets = patchSets
 	if _, errs := comp.Validate(); len(errs) > 0 {
 		panic(explore.HarnessError{Msg: "fixture composition does not pass Composition.Validate(): " + errs.ToAggregate().Error()})
 	}
@@ -81,7 +86,10 @@ func (w *composeWorld) reconcile() xrh.Outcome {
 	return xrh.Reconcile(w.rec, types.NamespacedName{Name: "xr1"})
 }
 
-func (w *composeWorld) quiesce() {
+// quiesce reconciles without faults until a reconcile changes nothing. On
+// a correct tree that takes a few reconciles; rendering the same inputs over
+// and over must converge because it is a pure function of them.
+func (w *composeWorld) quiesce(r *explore.Run) {
 	for i := 0; i < 10; i++ {
 		before := fmt.Sprint(w.s.Versions())
 		if out := w.reconcile(); out.Crashed != nil {
@@ -91,7 +99,8 @@ func (w *composeWorld) quiesce() {
 			return
 		}
 	}
-	panic(explore.HarnessError{Msg: "preparation did not quiesce"})
+	r.Failf("compose/fault-free-reconciles-do-not-converge", "10 fault-free reconciles of an unchanged XR keep writing: ResA objects %d, ResB objects %d, refs %v; last writes: %s",
+		len(w.s.All(xrh.ResA.GroupKind())), len(w.s.All(xrh.ResB.GroupKind())), xrh.Refs(w.s.Peek(xrh.XRKey("xr1"))), xrh.DescribeWrites(w.s, max(0, len(w.s.Log)-8)))
 }
 
 // writesTo lists the non-dry-run write calls addressed to a kind since from.
@@ -125,10 +134,11 @@ func reconcilerScenario(t *testing.T, rep *report.R) report.Scenario {
 		mode := composeModes[r.Free(len(composeModes), "failure")]
 		failed := []string{"a", "b"}[r.Free(2, "failed-template")]
 		initial := []string{"fresh", "steady"}[r.Free(2, "initial")]
-		failFirst := r.Bool("failing-patch-first")
+		position := []string{"last", "first", "via-patchset"}[r.Free(3, "failing-patch-position")]
+		failFirst := position != "last"
 		sibling := map[string]string{"a": "b", "b": "a"}[failed]
 		fk, sk := kindOf[failed].Kind, kindOf[sibling].Kind
-		r.Logf("mode=%s failed=%s(%s) initial=%s failing-patch-first=%v", mode, failed, fk, initial, failFirst)
+		r.Logf("mode=%s failed=%s(%s) initial=%s failing-patch-position=%s", mode, failed, fk, initial, position)
 		if mode == "name-generation-get-error" && (initial == "steady" || failFirst) {
 			return // existing resources are never renamed, and there is no failing patch to position: not a case
 		}
@@ -137,18 +147,24 @@ func reconcilerScenario(t *testing.T, rep *report.R) report.Scenario {
 		}
 
 		var ts []xrh.Template
+		var sets []v1.PatchSet
 		for _, n := range []string{"a", "b"} {
 			ps := []v1.Patch{commonPatch()}
 			if fp := failingPatch(mode); fp != nil && n == failed {
-				if failFirst {
+				switch position {
+				case "first":
 					ps = []v1.Patch{*fp, commonPatch()}
-				} else {
+				case "last":
 					ps = []v1.Patch{commonPatch(), *fp}
+				case "via-patchset":
+					// The failing patch sits in a PatchSet the template includes.
+					sets = []v1.PatchSet{{Name: "shared", Patches: []v1.Patch{*fp}}}
+					ps = []v1.Patch{{Type: v1.PatchTypePatchSet, PatchSetName: ptr("shared")}, commonPatch()}
 				}
 			}
 			ts = append(ts, xrh.Template{Name: n, GVK: kindOf[n], Patches: ps})
 		}
-		w := newComposeWorld(ts...)
+		w := newComposeWorldWith(sets, ts...)
 		s := w.s
 		xr := xrh.XR("xr1", "comp")
 		_ = unstructured.SetNestedField(xr.Object, "5", "spec", "param")
@@ -162,7 +178,7 @@ func reconcilerScenario(t *testing.T, rep *report.R) report.Scenario {
 			unstructured.RemoveNestedField(u.Object, "spec", "count")
 		}
 		if initial == "steady" {
-			w.quiesce()
+			w.quiesce(r)
 			if len(s.All(kindOf["a"].GroupKind())) != 1 || len(s.All(kindOf["b"].GroupKind())) != 1 {
 				panic(explore.HarnessError{Msg: "steady preparation did not create both composed resources"})
 			}
@@ -207,7 +223,7 @@ func reconcilerScenario(t *testing.T, rep *report.R) report.Scenario {
 			failing := expectFailure && (mode != "name-generation-get-error" || i == 0)
 			rec.outcome = report.Hash(mode, initial, strings.Join(seqAll, ";"), render(xrh.Refs(s.Peek(xrh.XRKey("xr1")))))
 			if failing {
-				rec.nontrivial = report.Hash("compose", mode, failed, initial, failFirst)
+				rec.nontrivial = report.Hash("compose", mode, failed, initial, position)
 			}
 			if mode == "name-generation-get-error" && initial == "fresh" && i == 0 && !fired {
 				panic(explore.HarnessError{Msg: "the name generator's Get was never issued"})
@@ -273,7 +289,7 @@ func directComposeScenario(t *testing.T, rep *report.R) report.Scenario {
 		s.Seed(xrh.XR("xr1", "comp"))
 		var before map[string]string
 		if initial == "steady" {
-			w.quiesce()
+			w.quiesce(r)
 			before = map[string]string{}
 			for _, k := range []string{"a", "b"} {
 				for _, o := range s.All(kindOf[k].GroupKind()) {
@@ -377,7 +393,7 @@ func mergeScenario(t *testing.T, rep *report.R) report.Scenario {
 		_ = unstructured.SetNestedSlice(xr.Object, []any{"a"}, "spec", "list")
 		_ = unstructured.SetNestedMap(xr.Object, map[string]any{"k": "new", "add": "x"}, "spec", "obj")
 		s.Seed(xr)
-		w.quiesce()
+		w.quiesce(r)
 		as := s.All(xrh.ResA.GroupKind())
 		if len(as) != 1 {
 			panic(explore.HarnessError{Msg: "preparation did not create ResA"})
@@ -390,7 +406,7 @@ func mergeScenario(t *testing.T, rep *report.R) report.Scenario {
 		s.Mutate(xrh.XRKey("xr1"), func(u *unstructured.Unstructured) {
 			_ = unstructured.SetNestedField(u.Object, "p2", "spec", "param")
 		})
-		w.quiesce()
+		w.quiesce(r)
 		got := s.Peek(simkube.KeyOf(as[0]))
 		list, _, _ := unstructured.NestedSlice(got.Object, "spec", "list")
 		k, _, _ := unstructured.NestedString(got.Object, "spec", "obj", "k")
